@@ -624,6 +624,11 @@ class QH(object):
         return g.ar.get()
 
     def _backoff(self, envelope, attempts):
+        # an age-based policy, as deployments write them: it reads the envelope's timestamp (set by the
+        # edge at hand-off) - the envelope the queue passes must be the message's, with its metadata
+        age = self.clock - envelope.timestamp
+        if age < 0:
+            self.errors.append('backoff: envelope timestamp %r lies in the future of %r' % (envelope.timestamp, self.clock))
         return self.next_backoff
 
     def _bounce_factory(self, envelope, reply):
@@ -701,6 +706,7 @@ class QH(object):
     def act_enqueue(self, sender, rcpts):
         env = Envelope(sender, [self.addr(r) for r in rcpts])
         env.parse(b'From: sender@example.com\r\nSubject: queue harness\r\n\r\nbody\r\n')
+        env.timestamp = float(self.clock)       # what Edge.handoff() does
 
         def run():
             try:
@@ -1179,6 +1185,8 @@ def replay_run(ctx, case):
             bounded_store_pool_announce_scenario(e)
         elif c['schedule'] == 'clock-step-back':
             clock_step_back_scenario(e)
+        elif c['schedule'] == 'bounded-store-flush':
+            bounded_store_pool_flush_scenario(e)
         print('scenario %s on %s: %d oracle failures / mismatches' % (c['schedule'], c.get('backend', '-'), e.n))
         return 1 if e.n else 0
     run = Run(_r.Random(0), c['cfg'], script=c['schedule'])
@@ -1441,6 +1449,55 @@ def bounded_store_pool_announce_scenario(ctx):
                          'store_pool=2, relay_pool=None: message %s (announced with timestamp %d while the scheduler was waiting for a store slot inside _check_ready) '
                          'is stored but neither in flight nor in the timetable; timetable %r, active %r, pending gates %r'
                          % (name, ids[name][2], sorted((int(t), h.ids.get(r)) for t, r in q.queued), sorted(h.ids.get(r) for r in q.active_ids), h.gates))
+    finally:
+        h.close()
+
+
+@_directed
+def bounded_store_pool_flush_scenario(ctx):
+    """store_pool=2, relay unbounded: flush() is called while the scheduler is parked inside
+    _check_ready (holding queued_lock, waiting for a store slot).  flush() must still make every
+    waiting message - also one that is not due - be attempted, and return."""
+    h = QH(store_pool=2, relay_pool=None)
+    case = dict(schedule='bounded-store-flush', store_pool=2)
+    try:
+        if h.pending('load'):
+            h.release(h.pending('load')[0], [])
+        h.act_advance(5)
+        h.act_enqueue('s@example.com', [0])
+        h.release(h.pending('write')[0])
+        ids = {}
+        for name, ts, r in (('LATER', 5000.0, 12), ('A', 2.0, 6)):
+            env = Envelope('s@example.com', ['r%d@example.com' % r])
+            env.timestamp = 0.0
+            rid = h.inner.write(env, ts)
+            ids[name] = (h.new_id(rid), rid, ts)
+            h.accepted[ids[name][0]] = (True, [r])
+        h.release(h.pending('wait')[0], [(ids['LATER'][2], ids['LATER'][1])])     # in the timetable, due in an hour
+        h.release(h.pending('relay', 0)[0], ('temp',))      # X's retry bookkeeping takes the free store slot
+        if not h.pending('incr', 0):
+            ctx.note('bounded-store flush scenario could not be set up (no incr gate)')
+            return
+        h.release(h.pending('wait')[0], [(ids['A'][2], ids['A'][1])])             # A due: the scheduler parks in _dispatch
+        h.act_flush()                                                             # flush while the lock is held
+        h.release(h.pending('incr', 0)[0], 30)
+        if h.pending('set_ts', 0):
+            h.release(h.pending('set_ts', 0)[0])
+        later = ids['LATER'][0]
+        for _ in range(60):
+            gs = [g for g in h.gates if g.kind not in ('load', 'wait')]
+            if not gs:
+                break
+            g = gs[0]
+            h.release(g, ('ok',) if g.kind == 'relay' else (1 if g.kind == 'incr' else None))
+        ctx.evaluated(('bounded-store-flush', 2))
+        ctx.count('bounded-store-flush-scenario')
+        attempted = any(a['id'] == later for a in h.attempts)
+        if not attempted or h.flush_returns < h.flush_calls:
+            ctx.fail('c12:flush-did-not-attempt-every-waiting-message', case,
+                     'store_pool=2, relay_pool=None: flush() was called while the scheduler was waiting for a store slot inside _check_ready; '
+                     'afterwards the message that was not yet due (timestamp %d) attempted: %r; flush() calls/returns %d/%d; timetable %r'
+                     % (ids['LATER'][2], attempted, h.flush_calls, h.flush_returns, sorted((ts_int(t), h.ids.get(r)) for t, r in h.queue.queued)))
     finally:
         h.close()
 
